@@ -313,7 +313,7 @@ def position_clause(ctx: Ctx, inst: Instance, log: list, mname: str, Q, fn) -> N
         f0 = fnds[0]
         ctx.check("R6", False, where[0] or GRID, where[1] or q, fn, f"the decision `{what}` depends on where the grid lies: after the rigid motion "
                   f"{mname.split('+')[0]} followed by the translation {tv} it falls the other way and the geometry is no longer the moved geometry: "
-                  f"[{f0.rule}] {f0.message[:300]}", construct=cons,
+                  f"{f0.construct}: [{f0.rule}] {f0.message[:300]}", construct=cons,
                   facts={"translation": [str(c) for c in tv], "decision": what, "failed": [f"{f.rule} {f.construct}" for f in fnds[:6]]})
 
 
@@ -405,6 +405,10 @@ MUTANTS = [
     _m("2d-fallback-normal-assumes-xy-plane", "                return pp.map_geometry.compute_normal(self.nodes)", "                return np.array([0.0, 0.0, 1.0])", "*", control=True),
     _m("2d-area-from-xy-only", "self.face_areas = np.sqrt(np.square(tangent).sum(axis=0))", "self.face_areas = np.sqrt(np.square(tangent[:2]).sum(axis=0))", "R1"),
     # --- kernels: a point combination that is not affine (weights do not sum to one on mixed grids)
+    # --- independently seeded changes (campaign of the coordinator): position-dependent DECISIONS
+    _m("seed-2d-orientation-threshold-from-face-centres", "if len_normal < 1e-5 * np.mean(self.face_areas) ** 2:", "if len_normal < 1e-5 * np.mean(self.face_centers) ** 2:", "R6"),
+    _m("seed-compute-normal-norms-of-uncentred-points", "    nrm = np.linalg.norm(v, axis=0)\n", "    nrm = np.linalg.norm(pts, axis=0)\n", "R6", file=MAPG),
+    _m("seed-1d-flip-probe-scaled-by-distance-from-origin", "vn = v + nrm(v) * self.face_normals[:, fi[idx]] * 0.001", "vn = v + nrm(cc) * self.face_normals[:, fi[idx]] * 0.001", "R6"),
     _m("2d-temp-centre-not-affine", "temp_cell_centers = np.vstack((cx, cy, cz)) / np.bincount(cellno)",
        "temp_cell_centers = np.vstack((cx, cy, cz)) / np.bincount(cellno).max()", "R3"),
 ]
